@@ -391,9 +391,20 @@ class DescriptorTransaction(_TransactionBase):
                     self._logger.debug(  # noqa: PLE1205
                         'transaction_manager: update descriptor Handle={}, DescriptorVersion={}',
                         new_descriptor.Handle, new_descriptor.DescriptorVersion)
-                    orig_descriptor.update_from_other_container(new_descriptor)
+                    # update from a private copy: update_from_other_container copies members only one level deep, the
+                    # application still holds new_descriptor
+                    orig_descriptor.update_from_other_container(new_descriptor.mk_copy())
                     self._update_corresponding_state(orig_descriptor)
                     self._mdib.descriptions.update_object_no_lock(orig_descriptor)
+            # Report every updated descriptor exactly once, as a private copy of what the mdib holds after this commit:
+            # a parent is touched once per created / deleted child (and by its own update), the intermediate versions
+            # were never committed; a descriptor that was deleted later in this transaction is not an updated one.
+            final_updates = {}
+            for descr in proc.descr_updated:
+                current = self._mdib.descriptions.handle.get_one(descr.Handle, allow_none=True)
+                if current is not None and descr.Handle not in final_updates:
+                    final_updates[descr.Handle] = current.mk_copy()
+            proc.descr_updated[:] = final_updates.values()
             # states of descriptors that were deleted in this transaction must not be (re-)added to mdib
             deleted_handles = {descr.Handle for descr in proc.descr_deleted}
             if deleted_handles:
